@@ -19,6 +19,8 @@ def generate_source_code(docstring, parsed):
         _user_names.update(x.name for x in ancestor.body if hasattr(x, 'name'))
         ancestor = ancestor.extends
 
+    _mark_calls_of_locals(parsed.body)
+
     # Convert the parse tree into a list of parsing expressions.
     nodes = parser.transform(parsed.body, _create_parsing_expression)
 
@@ -367,6 +369,32 @@ def _is_constructor(name):
     ) or (name not in _user_names and name in ('Left', 'Right', 'Some'))
 
 
+def _mark_calls_of_locals(node, bound=frozenset()):
+    # "f(x)" where f is a parameter calls whatever f stands for, also when f is
+    # named like a built-in constructor ("Opt", "Seq", ...).
+    if isinstance(node, list):
+        for item in node:
+            _mark_calls_of_locals(item, bound)
+        return
+
+    if not isinstance(node, parser.ParsedObject):
+        return
+
+    if isinstance(node, (parser.RuleDef, parser.ClassDef)) and node.params:
+        bound = bound | set(node.params)
+
+    if (
+        isinstance(node, parser.Postfix)
+        and isinstance(node.operator, parser.ArgList)
+        and isinstance(node.left, parser.Ref)
+        and node.left.value in bound
+    ):
+        node._metadata.calls_local = True
+
+    for field in node._fields:
+        _mark_calls_of_locals(getattr(node, field), bound)
+
+
 def _create_parsing_expression(tree):
     if isinstance(tree, parser.StringLiteral):
         ignore_case = tree.value.endswith(('i', 'I'))
@@ -421,7 +449,8 @@ def _create_parsing_expression(tree):
 
     if isinstance(tree, parser.Postfix) and isinstance(tree.operator, parser.ArgList):
         left, args = tree.left, tree.operator.args
-        if isinstance(left, ex.Ref) and _is_constructor(left.name):
+        is_local = tree._metadata.calls_local
+        if isinstance(left, ex.Ref) and _is_constructor(left.name) and not is_local:
             def unwrap(x):
                 return eval(x.source_code) if isinstance(x, ex.PythonExpression) else x
             return getattr(ex, left.name)(
